@@ -221,6 +221,25 @@ _R5 = {'C01': " Round 5: the real BufferedOutput feeding the real ByteWriter ove
 for _k, _v in _R5.items():
     CHECKS[_k]['text'] = CHECKS[_k]['text'] + _v
 
+# obligations added after the sixth round of seeded changes
+_R6 = {
+    'C03': ' Round 6: no in-place operation reaches the caller\'s arrays on the way to the records (the C19 taint obligations; a second write of the same arrays is only faithful if the first left them alone); a chunk size below 1 is refused, never "no rows" (F29 found, fixed).',
+    'C04': ' Round 6: real str texts of 1 .. 4096 (thorough 65536) characters +-1 through the write_struct dispatch (IDENT / ASCII) and write_struct_ident.',
+    'C05': ' Round 6: real str texts at length thresholds through the dispatch (an IDENT-coded value of 128..255 characters keeps its one-byte length); IDENT length obligations registered here.',
+    'C06': ' Round 6: real str texts at length thresholds through the dispatch.',
+    'C08': ' Round 6: two channels on one data set - slot dtypes are compared up to same-size integer reinterpretation (not observable in the file).',
+    'C09': ' Round 6: sets of one type are told apart by their ENCODED set component (set names None / empty / A / B over four add_* methods; F30 found, fixed); the order replay checks that all ORIGIN sets follow the header contiguously.',
+    'C10': ' Round 6: non-positive input chunk sizes are refused or tile all rows (F29).',
+    'C11': ' Round 6: sixth source kind - a structured array whose permuted fields all have one format (equal row layout; only the names tell the columns apart); the stub models dtype.fields / itemsize and structured view().',
+    'C12': ' Round 6: long value lists up to 1025 (thorough 65537) elements with one element at the edges of SLONG / 2**32 / 2**40 / 2**63; real str texts at length thresholds; non-positive chunk sizes refused (F29).',
+    'C14': ' Round 6: single-argument memos are offered tuples whose elements collide as keys ((10, 20) / (10.0, 20.0), (1,) / (True,), (0.0,) / (-0.0,)); the context obligation drives decorated functions calling decorated functions.',
+    'C17': ' Round 6: decorated functions calling decorated functions (every level decorated, alternating with with-blocks, twice in a row); the three names assigned AFTER creation and encoded inside the mode (F31 found, fixed).',
+    'C20': ' Round 6: the retry after a rejected add_channel(data=..., <invalid argument>) gets copy number 0 (checked by the file-level replay as well).',
+}
+for _k, _v in _R6.items():
+    CHECKS[_k]['text'] = CHECKS[_k]['text'] + _v
+
+
 NOT_APPLICABLE = []   # every property is decided by this technique; parts out of its reach are listed per check (level_note, DESIGN 4)
 
 NOTES = ('All checks: ./vcheck <id> [--tier quick|thorough]. Exit 0 = no violation among everything decided '
